@@ -221,6 +221,18 @@ class ServerModel:
         tw.outstanding.pop((s, ns), None)
         tw.emitted.pop((s, ns), None)
 
+    def future(self, tw):
+        """Bounded look-ahead that makes the state merge sound: every
+        connection is ended (each transport is lost) and the twins must keep
+        agreeing.  Hidden per-connection state that only one twin keeps
+        (tables filled at connect time, say) shows when the connection
+        ends, whichever history the search kept as the representative of
+        this state."""
+        pre = len(tw.violations)
+        for s in range(self.T):
+            self.apply(tw, ('loss', s))
+        return tuple(sorted({k for k, _ in tw.violations[pre:]}))
+
     def canon(self, tw):
         w = tw.s
         member = []
